@@ -79,6 +79,16 @@ def run(repo, gendir):
     reloc_test_plain = m is not None
     # a guarded variant (after a fix): "b->used < sizeof(void*) ||" present
     reloc_test_guarded = re.search(r"b->used\s*<\s*sizeof\(\s*void\s*\*\s*\)\s*\|\|", arena_c) is not None
+    # optional validations of a hardened loader (notes/C17-loader-validation.diff)
+    checks_offsets = re.search(r"buffers\[i\]\.offset\s*!=\s*expected_offset", arena_c) is not None
+    mref = re.search(r"ref\.offset\s*(>=|>)\s*new_arena->buffers\[ref\.buffer_id\]\.used", arena_c)
+    validates_refs = mref is not None and re.search(r"ref\.buffer_id\s*>=\s*new_arena->num_buffers", arena_c) is not None
+    ref_strict = bool(mref and mref.group(1) == ">=")
+    byte_reads = re.search(r"yr_stream_read\(\s*&reloc_ref\s*,\s*1\s*,\s*sizeof\(reloc_ref\)\s*,\s*stream\s*\)", arena_c) is not None
+    item_reads = re.search(r"yr_stream_read\(\s*&reloc_ref\s*,\s*sizeof\(reloc_ref\)\s*,\s*1\s*,\s*stream\s*\)", arena_c) is not None
+    rejects_partial = byte_reads and re.search(r"reloc_bytes\s*!=\s*0", arena_c) is not None
+    if not (byte_reads or item_reads):
+        bad.append("relocReadCall")
     # fix-up range test of the growth path
     fix = re.search(r"\(uint8_t\*\)\s*reloc_target\s*(>=|>)\s*b->data\s*&&\s*\(uint8_t\*\)\s*reloc_target\s*(<=|<)\s*b->data\s*\+\s*b->used", arena_c)
     if fix is None:
@@ -99,6 +109,12 @@ def run(repo, gendir):
         out.append("def %s : Nat := %d" % (k, lay[k]))
     out.append("/-- the loader's relocation test is `offset > used - sizeof(void*)` without a guard for `used < 8` -/")
     out.append("def relocTestGuarded : Bool := %s" % ("true" if reloc_test_guarded else "false"))
+    out.append("def loaderChecksOffsets : Bool := %s" % ("true" if checks_offsets else "false"))
+    out.append("def loaderValidatesRefs : Bool := %s" % ("true" if validates_refs else "false"))
+    out.append("def loaderRefStrict : Bool := %s" % ("true" if ref_strict else "false"))
+    out.append("def loaderRejectsPartial : Bool := %s" % ("true" if rejects_partial else "false"))
+    out.append("/-- relocation entries are requested as 8 items of 1 byte (true) or 1 item of 8 bytes (false) -/")
+    out.append("def loaderReadsRelocBytes : Bool := %s" % ("true" if byte_reads else "false"))
     out.append("/-- `>=` (true) or `>` (false) on the lower end, `<` (true) or `<=` (false) on the upper end of the range tests -/")
     out.append("def fixupLowerInclusive : Bool := %s" % ("true" if fix and fix.group(1) == ">=" else "false"))
     out.append("def fixupUpperExclusive : Bool := %s" % ("true" if fix and fix.group(2) == "<" else "false"))
